@@ -40,8 +40,9 @@ def run(repo: Repo, chk: Check) -> None:
     chk.set_clause('C02.1')
     nc = 0
     bare: Dict[str, Set[str]] = {}
-    for prim, args, stack, desc in cases():
-        q, got, want = run_case(repo, prim, args, stack)
+    thorough = chk.tier == 'thorough'
+    for prim, args, stack, desc in cases(thorough):
+        q, got, want = run_case(repo, prim, args, stack, unroll=5 if thorough else 3)
         if q is None:
             continue
         nc += 1
